@@ -907,7 +907,8 @@ where
         self.target_ratio = self.resample_ratio_original;
         self.last_index = -((self.interpolator.len() / 2) as f64);
         self.chunk_size = self.max_chunk_size;
-        self.update_needed_len();
+        self.needed_input_size = (self.chunk_size as f64 / self.resample_ratio).ceil() as usize
+            + self.interpolator.len() / 2;
         self.current_buffer_fill = self.needed_input_size;
         self.channel_mask.iter_mut().for_each(|val| *val = true);
     }
